@@ -1175,21 +1175,17 @@ func (mgr *Manager) UpdateTag(name string, operation UpdateTagOperation) error {
 		if !(strings.HasPrefix(name, "mark/") || strings.HasPrefix(name, "generated/")) {
 			return fmt.Errorf("tag %q is not of type 'mark' or 'generated'", name)
 		}
+		// the largest id itself, not id+1: that wraps to 0 for the largest uint64
 		for _, s := range info.markTagAddStreams {
-			if maxUsedStreamID <= s {
-				maxUsedStreamID = s + 1
+			if maxUsedStreamID < s {
+				maxUsedStreamID = s
 			}
 		}
 		for _, s := range info.markTagDelStreams {
-			if maxUsedStreamID <= s {
-				maxUsedStreamID = s + 1
+			if maxUsedStreamID < s {
+				maxUsedStreamID = s
 			}
 		}
-		if maxUsedStreamID == 0 {
-			// no operation
-			return nil
-		}
-		maxUsedStreamID--
 		marksUpdated = true
 	}
 	var newTag *tag
